@@ -14,6 +14,7 @@ import (
 	"pgregory.net/rapid"
 
 	"verifharness/internal/inref"
+	"verifharness/internal/live"
 	"verifharness/internal/pbt"
 )
 
@@ -268,6 +269,21 @@ func (e *entryInfo) checkOne(what string, seq string) error {
 			if len(evs) != 1 || left != 0 || evs[0] != want {
 				return fmt.Errorf("%s: ESC + %q decodes to %s (%d left), want %s", e.Name, seq[1:], inref.Show(evs), left, want)
 			}
+		case "after-esc-esc":
+			// ESC ESC + expiry is one Esc key (with or without Alt - the statement
+			// leaves that open), and the Alt prefix must not outlive it: the key
+			// typed next decodes as on a fresh decoder.
+			if isPrefixOfDefined(e, "\x1b\x1b") {
+				return nil
+			}
+			first, l0 := decodeAll(in, [][]byte{[]byte("\x1b\x1b")})
+			if len(first) != 1 || l0 != 0 || first[0].Kind != "key" || first[0].Key != int(tcell.KeyEsc) || first[0].Mod&^int(tcell.ModAlt) != 0 {
+				return fmt.Errorf("%s: ESC ESC + expiry decodes to %s (%d left), want one Esc key", e.Name, inref.Show(first), l0)
+			}
+			next, l1 := decodeAll(in, [][]byte{[]byte(seq)})
+			if l1 != 0 || !inref.Equal(next, evs) {
+				return fmt.Errorf("%s: after ESC ESC and an expired timeout, %q decodes to %s (%d left); on its own it decodes to %s", e.Name, seq, inref.Show(next), l1, inref.Show(evs))
+			}
 		case "lone-esc":
 			want := inref.Ev{Kind: "key", Key: int(tcell.KeyEsc)}
 			if len(evs) != 1 || left != 0 || evs[0].Key != want.Key || evs[0].Mod != 0 || evs[0].Kind != "key" {
@@ -373,6 +389,12 @@ func sweepEntries(t *testing.T) {
 			}
 			run("alt", "\x1b"+r, false)
 		}
+		for i, s := range ts {
+			if i%7 == 0 && s != "\x1b" {
+				run("after-esc-esc", s, true)
+			}
+		}
+		run("after-esc-esc", "a", true)
 		// prefix-freeness of the built table
 		var perr error
 		for _, a := range ts {
@@ -391,7 +413,7 @@ func sweepEntries(t *testing.T) {
 		pbt.Note(true, 2)
 		return
 	}
-	pbt.Exhaustive("every registered name and alias: every non-empty Key* field, xterm modifier parameters 2..16 on cursor/editing/F1-F12 keys (xterm-style entries), all 32 control bytes + DEL, lone ESC with expiry, ESC + every sequence of the built key table and sample runes, prefix-freeness of the built table (all pairs); each decode repeated 4x for map-order variation")
+	pbt.Exhaustive("every registered name and alias: every non-empty Key* field, xterm modifier parameters 2..16 on cursor/editing/F1-F12 keys (xterm-style entries), all 32 control bytes + DEL, lone ESC with expiry, ESC ESC with expiry followed by a key (every 7th table sequence and a rune), ESC + every sequence of the built key table and sample runes, prefix-freeness of the built table (all pairs); each decode repeated 4x for map-order variation")
 }
 
 func knownKey(e *entryInfo, what, seq string, err error) string { return "" }
@@ -497,6 +519,65 @@ func concatProp(c ConcatCase) error {
 	return nil
 }
 
+// LiveCase: key sequences, one tty read each, through a real screen (fake tty,
+// the library's own input and main goroutines); observed at PollEvent.
+type LiveCase struct {
+	Entry string   `json:"entry"`
+	Seqs  [][]byte `json:"seqs"`
+	Defer bool     `json:"defer_polling"`
+}
+
+func genLive(t *rapid.T) LiveCase {
+	c := LiveCase{Entry: rapid.SampledFrom(entryNames()).Draw(t, "entry"), Defer: rapid.Bool().Draw(t, "defer")}
+	e, err := info(c.Entry)
+	if err != nil {
+		t.Fatalf("%v", err)
+	}
+	var ts []string
+	for s := range e.Table {
+		if s != "\x1b" {
+			ts = append(ts, s)
+		}
+	}
+	for s := range e.XtMods {
+		ts = append(ts, s)
+	}
+	sort.Strings(ts)
+	n := rapid.IntRange(4, 40).Draw(t, "n")
+	for i := 0; i < n; i++ {
+		c.Seqs = append(c.Seqs, []byte(rapid.SampledFrom(ts).Draw(t, "seq")))
+	}
+	return c
+}
+
+func liveProp(c LiveCase) error {
+	e, err := info(c.Entry)
+	if err != nil {
+		return err
+	}
+	var want []inref.Ev
+	for _, s := range c.Seqs {
+		in, err := e.decoder()
+		if err != nil {
+			return fmt.Errorf("harness: %v", err)
+		}
+		evs, _ := decodeAll(in, [][]byte{s})
+		want = append(want, evs...)
+	}
+	got, err := live.RunReads(e.TI, "UTF-8", c.Seqs, c.Defer, len(want))
+	if err != nil {
+		return err
+	}
+	if !inref.Equal(got, want) {
+		k := 0
+		for k < len(got) && k < len(want) && got[k] == want[k] {
+			k++
+		}
+		return fmt.Errorf("%s: %d key sequences, one tty read each (polling deferred: %v), through the real screen give %d events, the sequences decoded one by one %d; first difference at %d: got %s want %s (sequences %q)", c.Entry, len(c.Seqs), c.Defer, len(got), len(want), k, inref.Show(got[k:min(k+1, len(got))]), inref.Show(want[k:min(k+1, len(want))]), c.Seqs)
+	}
+	return nil
+}
+
 func concatNonTrivial(c ConcatCase) bool {
 	multi := 0
 	for _, s := range c.Seqs {
@@ -509,10 +590,12 @@ func concatNonTrivial(c ConcatCase) bool {
 
 func TestProp(t *testing.T) {
 	defer pbt.Recover(t)
-	pbt.Describe("keys: exhaustive per registered name (see exhaustive_subspaces) through the production parser (synchronous verif hook), expected key/modifiers from an independent field->key table, the xterm modifier table and the F13-F63 aliasing; concat: rapid pairs/triples/quadruples of sequences of the built table, xterm-modified forms and text, with random read partitions, must decode to the concatenation of the parts' events. Non-trivial = sequence of >= 2 bytes (concat: >= 2 escape sequences); distinct = (entry, kind, sequence).",
+	pbt.Describe("keys: exhaustive per registered name (see exhaustive_subspaces) through the production parser (synchronous verif hook), expected key/modifiers from an independent field->key table, the xterm modifier table and the F13-F63 aliasing; concat: rapid pairs/triples/quadruples of sequences of the built table, xterm-modified forms and text, with random read partitions, must decode to the concatenation of the parts' events; live-keys: 4-40 key sequences, one tty read each, through a real screen with its goroutines (fake tty, observed at PollEvent, polling optionally deferred until the queues are full) must deliver the events of the sequences decoded one by one. Non-trivial = sequence of >= 2 bytes (concat: >= 2 escape sequences); distinct = (entry, kind, sequence).",
 		"a sequence the description assigns to several fields may decode to any of them; F13-F63 may be reported as F1-F12 plus the xterm-convention modifiers",
 		"ESC+K is only checked when ESC+K is not itself a defined sequence or a prefix of one",
 		"a single-byte field such as kbs=DEL follows the statement's rule (DEL -> Backspace2)")
 	sweepEntries(t)
 	pbt.Check(t, "concat", pbt.Pick(20000, 400000), pbt.Spec[ConcatCase]{Gen: genConcat, Prop: concatProp, NonTrivial: concatNonTrivial})
+	pbt.Check(t, "live-keys", pbt.Pick(100, 2500), pbt.Spec[LiveCase]{Gen: genLive, Prop: liveProp,
+		NonTrivial: func(c LiveCase) bool { return len(c.Seqs) >= 8 }})
 }
